@@ -205,6 +205,7 @@ func drive(args []string) int {
 	runsDone := 0
 	infra := false
 	crashed := 0
+	sigCount := map[string]int{}
 	var wg sync.WaitGroup
 	for w := 0; w < nw; w++ {
 		wg.Add(1)
@@ -234,7 +235,12 @@ func drive(args []string) int {
 				case "start":
 					lastStart = l.Runs
 				case "viol":
-					viols = append(viols, *l.Viol)
+					// (a broken tree can fail in every run, and a recording may be megabytes:
+					// three recordings per signature are kept, the rest are only counted)
+					sigCount[l.Viol.Signature]++
+					if sigCount[l.Viol.Signature] <= 3 {
+						viols = append(viols, *l.Viol)
+					}
 				case "stats":
 					gotStats = true
 					runsDone += l.Runs
@@ -324,7 +330,7 @@ func drive(args []string) int {
 		if k := matchKnown(ks, v.Prop, sig); k != nil {
 			if !knownSeen[k.Signature] {
 				knownSeen[k.Signature] = true
-				fmt.Printf("KNOWN-FINDING: property=%s %s (%s) [%d runs]\n", v.Prop, k.What, sig, len(vs))
+				fmt.Printf("KNOWN-FINDING: property=%s %s (%s) [%d runs]\n", v.Prop, k.What, sig, sigCount[sig])
 			}
 			continue
 		}
